@@ -11,7 +11,7 @@ pub fn def() -> PropDef {
 	PropDef {
 		id: "C12",
 		level: "fault_enumeration",
-		rule: "sync_wal = sync_data = true, stepping mode, binary with interposed fdatasync/fsync/msync/ftruncate/unlink/mmap: a durability tracker keeps for every file its content as of its last successful sync (msync: its range). Generated histories over hash / rc / btree / multitree columns whose transactions touch several size tiers and index pages; crash instants = stop points (file-operation index inside every pipeline op, sampled per history) and op boundaries; per instant several POWER-LOSS IMAGES are generated: every memory-mapped table / index / ref-count file = durable copy with a generated subset (none / all / random) of its dirty 4 KiB pages replaced by the current page; every log file = durable bytes + a generated-length prefix of the bytes appended since its last sync. Oracles: (I2, at every event) when a log file is truncated to 0 or unlinked, every table / index (beyond its 16 KiB statistics area) / ref-count file equals its durable copy; (image) Db::open succeeds and observes a prefix p with synced <= p <= committed, and the recovered database keeps working. Non-trivial = an image in which >=1 dirty page was dropped AND >=1 kept, or the log tail was cut inside its unsynced part; distinct = distinct (history, instant, page subset) triples. Sub-run power-threads: the same tracker with the REAL worker threads (always_flush, generated client pauses, msync slowed down by a generated delay = slow disk): at every log sync and every log truncate / unlink a power-loss image is built inside the interposed call, under the tracker lock, from the durable copies plus a generated subset of the dirty table pages; the durable copy of an msync range is taken at call time. Oracle without any knowledge of the schedule: every image recovers to a prefix of the commits started so far, and a transaction recovered from an EARLIER image (its log record was durable then) is recovered from every later image (durability is monotone). Non-trivial there = an image taken at a log reclamation while the client was still committing",
+		rule: "sync_wal = sync_data = true, stepping mode, binary with interposed fdatasync/fsync/msync/ftruncate/unlink/mmap: a durability tracker keeps for every file its content as of its last successful sync (msync: its range). Generated histories over hash / rc / btree / multitree columns whose transactions touch several size tiers and index pages; crash instants = stop points (file-operation index inside every pipeline op, sampled per history) and op boundaries; per instant several POWER-LOSS IMAGES are generated: every memory-mapped table / index / ref-count file = durable copy with a generated subset (none / all / random) of its dirty 4 KiB pages replaced by the current page; every log file = durable bytes + a generated-length prefix of the bytes appended since its last sync. Oracles: (I2, at every event) when a log file is truncated to 0 or unlinked, every table / index (beyond its 16 KiB statistics area) / ref-count file equals its durable copy; (image) Db::open succeeds and observes a prefix p with synced <= p <= committed, and the recovered database keeps working. Non-trivial = an image in which >=1 dirty page was dropped AND >=1 kept, or the log tail was cut inside its unsynced part; distinct = distinct (history, instant, page subset) triples. Sub-run power-threads: the same tracker with the REAL worker threads (always_flush, generated client pauses, msync slowed down by a generated delay = slow disk): at every log sync and every log truncate / unlink a power-loss image is built inside the interposed call, under the tracker lock, from the durable copies plus a generated subset of the dirty table pages; the durable copy of an msync range is taken at call time. Oracle without any knowledge of the schedule: every image recovers to a prefix of the commits started so far, and a transaction recovered from an EARLIER image (its log record was durable then) is recovered from every later image (durability is monotone); before every sync of a log file (after a generated delay) a further image holds a generated prefix of the UNSYNCED bytes of every log file as well - it must recover to a prefix not older than the bound but does not raise it. Non-trivial there = an image taken at a log reclamation while the client was still committing",
 		assumptions: &[
 			"file creation, unlink, rename and ftruncate sizes are durable at once (the library never syncs directories; the property speaks of pages and log bytes)",
 			"a 4 KiB page is either its durable or its current version (no torn pages); the metadata file is durable once written",
